@@ -73,6 +73,24 @@ def templates():
         out.append((f + "-nested-pattern", T.call(f, T.call("tolower", s),
                                                   T.call("concat", S(), T.S("k"))), False))
         out.append((f + "-pattern-tolower", T.call(f, s, T.call("tolower", S())), False))
+    # long / mixed in-lists: the string sits behind (or in front of) many items of another
+    # literal kind - a renderer that picks a strategy from the list's size or first item
+    # must still quote every string item
+    kinds = {"guid": lambda i: T.lit("guid", "6c0e37e3-e856-45ee-bd58-%012d" % i),
+             "int": lambda i: T.I(i), "date": lambda i: T.lit("date", "2021-03-%02d" % (1 + i % 28)),
+             "str": lambda i: T.S("k%d" % i), "float": lambda i: T.lit("float", "%d.5" % i),
+             "datetime": lambda i: T.lit("datetime", "2021-03-04T05:%02d:07" % (i % 60)),
+             "null": lambda i: T.lit("null", "null"), "bool": lambda i: T.lit("bool", "true")}
+    for kind, mk in kinds.items():
+        for n in (2, 33, 40, 130, 1001):
+            if n == 1001 and kind not in ("guid", "str"):
+                continue
+            pad = [mk(i) for i in range(n)]
+            out.append(("in-long-%s-%d-last" % (kind, n), ("cmp", "in", s, ("list", tuple(pad) + (S(),))), False))
+            if n in (33, 1001):
+                out.append(("in-long-%s-%d-first" % (kind, n), ("cmp", "in", s, ("list", (S(),) + tuple(pad))), False))
+                out.append(("in-long-%s-%d-middle" % (kind, n),
+                            ("cmp", "in", s, ("list", tuple(pad[: n // 2]) + (S(),) + tuple(pad[n // 2:]))), False))
     for f in ("contains", "startswith", "endswith"):
         # a list used as pattern is rendered through its repr(): the string stays inside one
         # literal but not verbatim, so only the token skeleton is judged ("embedded")
